@@ -214,6 +214,13 @@ func StmtWithTruth(r *rand.Rand, d ref.V, paths []Path, depth int, want bool) (r
 func ArgsMap(r *rand.Rand) ref.V {
 	for {
 		m := MapValue(r, 3, ValOpts{MaxWidth: 5, IntegralF: false})
+		// a top-level null argument cannot be unsealed by the pinned tree (known finding of
+		// C07, judged there); the chain workloads keep null below the top level
+		for i := range m.M {
+			if m.M[i].V.K == ref.KNull {
+				m.M[i].V = ref.List(ref.Null())
+			}
+		}
 		if len(m.M) >= 1 {
 			return m
 		}
